@@ -213,6 +213,22 @@ def fd_variants(run, np, srs, rng):
         mexp = np.sqrt(np.pi / 2 * fn * Q * np.interp(fn, F, psd))
         if not np.allclose(miles, mexp, rtol=1e-9):
             run.violation("Miles estimate differs from sqrt(pi/2 fn Q PSD(fn))", {"trial": trial}, {"law": "miles"})
+        # the oscillator frequencies may come in any order, on or off the PSD grid: row i belongs to Fn[i]
+        for fn2 in (fn[::-1].copy(), np.array([90.0, 10.0, 35.0]), np.array([61.37, 7.77, 150.1, 33.3])):
+            try:
+                v2, m2 = srs.vrs((F, psd), F, Q, linear=True, Fn=fn2, getmiles=True)
+            except Exception as ex:
+                run.violation("vrs raised %r for unsorted Fn" % ex, {"trial": trial}, {"law": "vrs"})
+                continue
+            for k, f in enumerate(fn2):
+                v1, m1 = srs.vrs((F, psd), F, Q, linear=True, Fn=np.array([f]), getmiles=True)
+                # (the quadrature grid is the PSD grid merged with ALL of Fn, so the vrs value itself moves within the documented 1 %)
+                if not (np.allclose(np.ravel(v2)[k], np.ravel(v1)[0], rtol=1e-2) and np.allclose(np.ravel(m2)[k], np.ravel(m1)[0], rtol=1e-9)):
+                    run.violation("vrs / Miles row %d does not belong to Fn[%d] = %g when Fn is not ascending" % (k, k, f), {"trial": trial, "Fn": fn2.tolist()},
+                                  {"law": "miles", "order": "unsorted"})
+                    break
+            if not np.allclose(m2, np.sqrt(np.pi / 2 * fn2 * Q * np.interp(fn2, F, psd)), rtol=1e-9):
+                run.violation("Miles estimate differs from sqrt(pi/2 fn Q PSD(fn)) for unsorted / off-grid Fn", {"trial": trial, "Fn": fn2.tolist()}, {"law": "miles"})
         # srs_frf: peak response of an oscillator to a base FRF = |T(f)| * |frf| maximised over f
         frf = rng.standard_normal(F.size) + 1j * rng.standard_normal(F.size)
         sh, resp = srs.srs_frf(frf, F, fn, Q, getresp=True)
